@@ -110,6 +110,17 @@ def build_harness(cmds=None, race=False):
     return out
 
 
+def build_argot(race=False):
+    """the repository's own CLI built from the current working tree -> build/bin/argot (or argot-race)"""
+    os.makedirs(BIN, exist_ok=True)
+    out = os.path.join(BIN, "argot-race" if race else "argot")
+    with _Lock("go"):
+        rc, log = sh(["go", "build"] + (["-race"] if race else []) + ["-o", out, "./cmd/argot"], timeout=1500, cwd=REPO)
+        if rc != 0:
+            raise BuildError("go build ./cmd/argot failed", log)
+    return out
+
+
 def _write_if_changed(path, content):
     try:
         if open(path).read() == content:
